@@ -28,6 +28,7 @@ from hypothesis import strategies as st
 from ..common import cedge, dc
 from ..engine import Clause, Violation, require
 from ..strategies import universes
+from ..common import with_history  # noqa: E402
 
 ASSUMPTIONS = [
     "an item matches a criteria dict iff every criterion attribute is present in its metadata "
@@ -525,6 +526,7 @@ def svh_cases(draw, tier):
             "planted": planted}
 
 
+@with_history
 def build_svh(case):
     from hypergraphx import Hypergraph
     h = Hypergraph(weighted=case["weighted"])
